@@ -94,6 +94,46 @@ CLAIMED.update({
         ref="DESIGN.md §5 C20", note=NOTE_COMMON + " Runs start at MIN_ST (the TESTING backend's dense buffer is indexed from there); ticks with an empty structural delta that leave the value unchanged are optional on both sides (documented as not externally observable)."),
 })
 
+CLAIMED.update({
+    "C09": dict(
+        text=("Differential exploration: a generated sub-program (stateless/stateful nodes, self-scheduling timers, an internal source "
+              "relative to start, pass-through result, captured outer port) is applied inlined and nested at depth 1, 2 and 3-4 in separate "
+              "engine runs; the result recorder streams must be identical, and every nested run is replayed against the pending-request "
+              "model (no lost child wake-up, no child cycle before its parent). Known finding F10 (validity-waiving nodes are sampled at a "
+              "nested start) is excluded and counted."),
+        technique="property-based testing: differential (inlined vs nested) between engine runs + pending-request model per nesting level",
+        ref="DESIGN.md §5 C09", note=NOTE_COMMON),
+    "C10": dict(
+        text=("Differential exploration of map_: a generated mapped function (stateless, stateful, self-scheduling, key-consuming, with a "
+              "broadcast argument) over a scripted TSD key history (add/update/remove/re-add, many keys per cycle, growth over 8/16/32) is "
+              "compared, per key and lifetime, with the same function run ALONE in a second engine run (one inlined copy per lifetime fed "
+              "that key's ticks); output key set, removal deltas, full value at every tick and child start/stop counts are checked."),
+        technique="property-based testing: differential (map_ vs per-key solo run of the mapped function) between engine runs",
+        ref="DESIGN.md §5 C10", note=NOTE_COMMON + " One multiplexed dictionary; failure isolation per key is exercised under C15."),
+    "C11": dict(
+        text=("Model-based exploration of reduce: +, max, xor combiners (single node or two-node sub-graph) with/without a non-identity "
+              "zero over scripted TSD histories (shrink to empty, regrow, bursts over 1/2/4/8/16/32 live keys) and fixed TSLs whose elements "
+              "become valid over time; the result endpoint is read in every cycle the collection or result ticked and must equal the fold "
+              "of the currently valid elements with the stated zero rules."),
+        technique="property-based testing: Hypothesis history generator + fold reference model",
+        ref="DESIGN.md §5 C11", note=NOTE_COMMON + " Dynamic TSL is not exercised; same-cycle erase+rewrite (F6/F7) is not generated."),
+    "C12": dict(
+        text=("Differential exploration of switch_: generated branches (stateless, stateful, self-scheduling, key-consuming, default, "
+              "reload_on_ticked) and key histories with rapid flips and returns; the switch output must equal the concatenation of the "
+              "selected branches run ALONE per interval in a second engine run (inputs sampled at the switch), no deselected instance may "
+              "run user code after its stop, at most one child is alive, an unmatched key without default must fail the run."),
+        technique="property-based testing: differential (switch_ vs per-interval solo run of the branch) between engine runs + lifecycle invariants",
+        ref="DESIGN.md §5 C12", note=NOTE_COMMON),
+    "C13": dict(
+        text=("Model-based exploration of references: if_then_else over TS/TSS/TSD targets (optionally through a nested pass-through) read "
+              "by 1-3 consumers and by a consumer of the reference itself; a model of 'current target' predicts for every cycle whether "
+              "each consumer is evaluated, the value it reads, the retarget delta for sets/dictionaries, that re-published selections and "
+              "unselected targets cause no evaluation, and that the reference output ticks only on a real selection change. Known finding "
+              "F5 (stale removed entries in the retarget delta) is excluded and counted."),
+        technique="property-based testing: Hypothesis timing generator + current-target reference model",
+        ref="DESIGN.md §5 C13", note=NOTE_COMMON + " if_cmp and switch_-produced references are not exercised; delta_value() on a sampled rebind is not asserted."),
+})
+
 NOT_YET = {}
 
 
